@@ -110,6 +110,10 @@ func Assume(c bool) {
 	}
 }
 
+// AssumeModel restricts the value an uninterpreted function (crc, hash) takes in the symbolic run.
+// Natively the real function decides, so the call is a no-op there.
+func AssumeModel(c bool) {}
+
 func Assert(c bool, msg string) {
 	if !c {
 		panic("VSYM-ASSERT-FAIL: " + msg)
